@@ -649,6 +649,38 @@ func main() {
 				}
 			}
 		}
+		// 1-deviation mutants (all 256 byte values substituted/inserted, deletions) and multi-byte space prefixes/suffixes of small documents
+		for _, d := range []string{`12`, `0`, `"1KiB"`, `{"value":1,"unit":"B"}`, `{"x":[1],"value":2,"unit":"kB"}`, ` 7 `} {
+			add := func(m string) {
+				if !mseen[m] && !seen[m] && len(m) <= 128 {
+					mseen[m] = true
+					muts = append(muts, m)
+				}
+			}
+			mc.Mutations1([]byte(d), mc.AllBytes, func(m []byte) { add(string(m)) })
+			for _, sp := range []string{"\u00a0", "\u0085", "\u2028", "\u2003", "\ufeff", "\u3000", "\v", "\f", "\x1c", "\x00", "\r\n", "\t\t"} {
+				add(sp + d)
+				add(d + sp)
+				add(sp + d + sp)
+			}
+		}
+		// numeric sweep: the same numbers as bare number, as object value and inside a string
+		var bigs []string
+		for n := 1; n <= 99; n++ {
+			bigs = append(bigs, fmt.Sprintf("%d000000000000000000", n))
+		}
+		for _, x := range []string{"18446744073709551614", "18446744073709551615", "18446744073709551616", "18446744073709551625", "27670116110564327424", "36893488147419103232", "99999999999999999999", "100000000000000000000",
+			"184467440737095516150", "1844674407370955161", "9223372036854775807", "9223372036854775808", "00", "01", "0000000000000000000001", "1e19", "1E19", "1e20", "1.8446744073709551615e19", "12345678901234567890123"} {
+			bigs = append(bigs, x)
+		}
+		for _, n := range bigs {
+			for _, d := range []string{n, `{"value":` + n + `,"unit":"B"}`, `{"unit":"","value":` + n + `}`, `"` + n + `"`, `"` + n + `B"`} {
+				if !mseen[d] && !seen[d] {
+					mseen[d] = true
+					muts = append(muts, d)
+				}
+			}
+		}
 		r.Extra["mutated_texts"] = len(muts)
 		r.Phase("oracle self-check: the AST each document was generated from equals the AST re-derived from its text by a token walk", "all generated documents", func() {
 			r.Serial(func(w *mc.W) {
